@@ -921,6 +921,8 @@ const JS_SNIPPETS: &[&str] = &[
   // suppressions that are used only by a match NESTED inside a node another rule fixes
   "// ast-grep-ignore: a-num\nfoo(7);\n", "foo(8); // ast-grep-ignore: a-num\n", "// ast-grep-ignore\nfoo(bar(6));\n",
   "// ast-grep-ignore: p-callee\nfoo(foo(9));\n", "// ast-grep-ignore: a-num\nbar(5);\n",
+  // several comments before a `debugger` statement (expandStart … stopBy: end picks the nearest)
+  "// first é\nbar(5);\n// second\ndebugger;\n", "/* a */ foo(1); /* b */ debugger;\n",
   // two expanding fixes that share a separator, with a third fix nested inside the one that loses
   "let brr = [1, g(2), 3];\n", "let crr = [g(4), 5];\n",
 ];
@@ -992,6 +994,8 @@ const SCAN_RULES: &[(&str, &str)] = &[
   ("n-etag", "language: html\nrule: {kind: end_tag}\nfix: '</x>'\n"),
   ("o-args", "language: js\nrule: {kind: arguments}\nfix: '()'\n"),
   ("p-callee", "language: js\nrule: {kind: identifier, regex: '^(foo|bar)$'}\nfix: qux\n"),
+  // expandStart with `stopBy: end`: the NEAREST preceding sibling that is a comment
+  ("r-dbg", "language: js\nrule: {kind: debugger_statement}\nfix:\n  template: ''\n  expandStart: {kind: comment, stopBy: end}\n"),
   // expands to the LEFT over the separator that e-arr's expandEnd swallows too
   ("q-arr", "language: js\nrule: {kind: call_expression, inside: {kind: array}}\nfix:\n  template: 'C'\n  expandStart: {regex: ','}\n"),
 ];
@@ -1344,6 +1348,15 @@ pub fn c06_cli(ctx: &Ctx, rng: &mut Rng, o: &mut Out) {
         Some("range outside file")
       } else if !(content.is_char_boundary(r.start) && content.is_char_boundary(r.end)) {
         Some("range off char boundary")
+      } else if a.rule == "r-dbg" {
+        // reference from the documentation: the range starts at the nearest preceding sibling that
+        // is a comment (none: at the node) and ends at the node's end
+        let g = SupportLang::JavaScript.ast_grep(content.as_str());
+        let node = g.root().dfs().find(|n| n.range().start == a.node.0 && n.range().end == a.node.1 && n.kind() == "debugger_statement");
+        let want_start = node
+          .and_then(|n| n.prev_all().find(|p| p.kind().contains("comment")).map(|p| p.range().start))
+          .unwrap_or(a.node.0);
+        if !a.file.ends_with(".js") || (r.start == want_start && r.end == a.node.1) { None } else { Some("expandStart stopBy end does not start at the nearest preceding comment") }
       } else if expands_start {
         // documented meaning of `expandStart: {regex: ','}` (stopBy neighbor): swallow a directly
         // preceding comma token (white space between the comma and the node belongs to the range)
